@@ -637,7 +637,7 @@ Definition gen_stop (s : store) (stop : N) : bool :=
 
 (* the model, position view *)
 Lemma locate_seg s mc tip t g locs stop : mc_facts s mc tip t g ->
-  answer (locate s locs stop) =
+  answer (locate_core s locs stop) =
   let a := anchor_mc mc locs in
   let sh0 := if N.eqb stop 0 then a + cap else stop_height s stop in
   if (sh0 =? 0) && gen_stop s stop then [] else
@@ -645,7 +645,7 @@ Lemma locate_seg s mc tip t g locs stop : mc_facts s mc tip t g ->
   if sh <=? a then [] else seg mc (a + 1) (Z.to_nat (Z.min (sh - a) cap)).
 Proof.
   intros F. pose proof (anchor_bounds _ _ _ _ _ locs F) as Ha. pose proof cap_pos as Hc.
-  unfold locate. fold (gen_stop s stop).
+  unfold locate_core. fold (gen_stop s stop).
   replace (match locs with [] => 0 | _ :: _ => start_height s locs end) with (anchor_mc mc locs)
     by (rewrite <- (start_eq_anchor _ _ _ _ _ locs F); destruct locs; [first [apply start_height_nil | symmetry; apply start_height_nil]| reflexivity]).
   cbn zeta. set (a := anchor_mc mc locs) in *.
@@ -659,7 +659,7 @@ Qed.
 
 (* C13, second half, which headers: for ALL locators and stop hashes the answer is the specification's *)
 Lemma locate_matches_mc s mc tip t g locs stop : mc_facts s mc tip t g ->
-  answer (locate s locs stop) = spec_locate_mc mc locs stop.
+  answer (locate_core s locs stop) = spec_locate_mc mc locs stop.
 Proof.
   intros F.
   pose proof (anchor_bounds _ _ _ _ _ locs F) as Ha. pose proof cap_pos as Hc.
@@ -727,7 +727,7 @@ Qed.
 (* C13, second half, safety: WHATEVER the locator and the stop hash (also in the two corner cases), what is
    sent is a parent-linked ascending run of at most `cap` longest-chain headers above the start. *)
 Lemma locate_safe_mc s mc tip t g locs stop : mc_facts s mc tip t g ->
-  let l := answer (locate s locs stop) in
+  let l := answer (locate_core s locs stop) in
   (length l <= Z.to_nat cap)%nat /\ linked l /\
   (forall r, In r l -> In r s /\ st r = Longest /\ anchor_mc mc locs < height r) /\
   l = seg mc (anchor_mc mc locs + 1) (length l).
@@ -744,6 +744,30 @@ Proof.
   split; [lia|]. split; [exact H2|]. split.
   - intros r Hr. destruct (H4 r Hr) as (A & B & C). repeat split; auto. lia.
   - unfold seg. symmetry. apply firstn_length_idem.
+Qed.
+
+(* ---- the bind-variable guard: locators of more than sql_max_vars hashes are refused ---- *)
+Lemma locate_short s locs stop : Z.of_nat (length locs) <= sql_max_vars -> locate s locs stop = locate_core s locs stop.
+Proof. intros H. unfold locate. destruct (Z.ltb_spec sql_max_vars (Z.of_nat (length locs))); [lia| reflexivity]. Qed.
+
+Lemma locate_too_long s locs stop : sql_max_vars < Z.of_nat (length locs) ->
+  locate s locs stop = LErr ELocatorLookup /\ answer (locate s locs stop) = [].
+Proof. intros H. unfold locate. destruct (Z.ltb_spec sql_max_vars (Z.of_nat (length locs))); [split; reflexivity| lia]. Qed.
+
+Lemma locate_matches_mc_guard s mc tip t g locs stop : mc_facts s mc tip t g -> Z.of_nat (length locs) <= sql_max_vars ->
+  answer (locate s locs stop) = spec_locate_mc mc locs stop.
+Proof. intros F H. rewrite (locate_short s locs stop H). exact (locate_matches_mc _ _ _ _ _ locs stop F). Qed.
+
+Lemma locate_safe_mc_guard s mc tip t g locs stop : mc_facts s mc tip t g ->
+  let l := answer (locate s locs stop) in
+  (length l <= Z.to_nat cap)%nat /\ linked l /\
+  (forall r, In r l -> In r s /\ st r = Longest /\ anchor_mc mc locs < height r) /\
+  l = seg mc (anchor_mc mc locs + 1) (length l).
+Proof.
+  intros F. destruct (Z.ltb_spec sql_max_vars (Z.of_nat (length locs))) as [H|H].
+  - rewrite (proj2 (locate_too_long s locs stop H)). cbn. split; [lia|]. split; [exact I|]. split; [intros r []|].
+    unfold seg. reflexivity.
+  - rewrite (locate_short s locs stop H). exact (locate_safe_mc _ _ _ _ _ locs stop F).
 Qed.
 
 (* ---- what the specification means (sanity of the declarative side) ---- *)
@@ -942,15 +966,16 @@ Theorem locator_length_thm s t : Valid s -> tipB s = Some t -> height t < 2 ^ 31
   exists l, latest_locator s = Some l /\ Z.of_nat (length l) = max_entries (height t) /\ max_entries (height t) <= 43.
 Proof. intros HV. destruct (valid_mc s HV) as (tip & t0 & g & F). exact (locator_length_mc _ _ _ _ _ t F). Qed.
 
-Theorem locate_matches_spec s locs stop : Valid s -> answer (locate s locs stop) = spec_locate s locs stop.
-Proof. intros HV. destruct (valid_mc s HV) as (tip & t & g & F). exact (locate_matches_mc _ _ _ _ _ locs stop F). Qed.
+Theorem locate_matches_spec s locs stop : Valid s -> Z.of_nat (length locs) <= sql_max_vars ->
+  answer (locate s locs stop) = spec_locate s locs stop.
+Proof. intros HV H. destruct (valid_mc s HV) as (tip & t & g & F). exact (locate_matches_mc_guard _ _ _ _ _ locs stop F H). Qed.
 
 Theorem locate_safe_thm s locs stop : Valid s ->
   let l := answer (locate s locs stop) in
   (length l <= Z.to_nat cap)%nat /\ linked l /\
   (forall r, In r l -> In r s /\ st r = Longest /\ anchor s locs < height r) /\
   l = seg (main_chain s) (anchor s locs + 1) (length l).
-Proof. intros HV. destruct (valid_mc s HV) as (tip & t & g & F). exact (locate_safe_mc _ _ _ _ _ locs stop F). Qed.
+Proof. intros HV. destruct (valid_mc s HV) as (tip & t & g & F). exact (locate_safe_mc_guard _ _ _ _ _ locs stop F). Qed.
 
 Theorem spec_locate_meaning s locs stop : Valid s ->
   let a := anchor s locs in let l := spec_locate s locs stop in
@@ -999,16 +1024,16 @@ Theorem locator_length_any_work s t : (exists tip, Inv s tip) -> tipB s = Some t
   exists l, latest_locator s = Some l /\ Z.of_nat (length l) = max_entries (height t) /\ max_entries (height t) <= 43.
 Proof. intros HI. destruct (inv_tip_mc s HI) as (tip & t0 & g & F). exact (locator_length_mc _ _ _ _ _ t F). Qed.
 
-Theorem locate_any_work s locs stop : (exists tip, Inv s tip) ->
+Theorem locate_any_work s locs stop : (exists tip, Inv s tip) -> Z.of_nat (length locs) <= sql_max_vars ->
   answer (locate s locs stop) = spec_locate_mc (tip_chain s) locs stop.
-Proof. intros HI. destruct (inv_tip_mc s HI) as (tip & t & g & F). exact (locate_matches_mc _ _ _ _ _ locs stop F). Qed.
+Proof. intros HI H. destruct (inv_tip_mc s HI) as (tip & t & g & F). exact (locate_matches_mc_guard _ _ _ _ _ locs stop F H). Qed.
 
 Theorem locate_safe_any_work s locs stop : (exists tip, Inv s tip) ->
   let l := answer (locate s locs stop) in
   (length l <= Z.to_nat cap)%nat /\ linked l /\
   (forall r, In r l -> In r s /\ st r = Longest /\ anchor_mc (tip_chain s) locs < height r) /\
   l = seg (tip_chain s) (anchor_mc (tip_chain s) locs + 1) (length l).
-Proof. intros HI. destruct (inv_tip_mc s HI) as (tip & t & g & F). exact (locate_safe_mc _ _ _ _ _ locs stop F). Qed.
+Proof. intros HI. destruct (inv_tip_mc s HI) as (tip & t & g & F). exact (locate_safe_mc_guard _ _ _ _ _ locs stop F). Qed.
 
 Theorem spec_locate_meaning_any_work s locs stop : (exists tip, Inv s tip) ->
   let mc := tip_chain s in let a := anchor_mc mc locs in let l := spec_locate_mc mc locs stop in
@@ -1037,4 +1062,14 @@ Proof.
   split.
   - apply ChainFields.reachable_inv; [discriminate| apply C01_zero_work_refuted].
   - vm_compute. repeat split; reflexivity.
+Qed.
+
+(* every locator a getheaders message can carry (wire.MaxBlockLocatorsPerMsg, regenerated) is within the limit *)
+Example wire_locators_within_sql_limit : max_block_locators_per_msg = 500 /\ max_block_locators_per_msg <= sql_max_vars.
+Proof. split; [reflexivity| unfold max_block_locators_per_msg, sql_max_vars; lia]. Qed.
+
+Theorem locate_wire s locs stop : Valid s -> Z.of_nat (length locs) <= max_block_locators_per_msg ->
+  answer (locate s locs stop) = spec_locate s locs stop.
+Proof.
+  intros HV H. apply (locate_matches_spec s locs stop HV). pose proof (proj2 wire_locators_within_sql_limit). lia.
 Qed.
